@@ -109,6 +109,8 @@ type latRule struct {
 	N   int    `json:"n"`   // n-th matching write on a connection (-1 = every)
 	NS  int64  `json:"ns"`
 	Err string `json:"err,omitempty"` // if set, the write fails with this error kind after the latency
+	From      bool `json:"from,omitempty"`            // the n-th matching write and every later one (an outage, not a single fault)
+	FirstConn bool `json:"first_conn_only,omitempty"` // only on the first connection (the link works again after the re-dial)
 }
 
 type advScenario struct {
@@ -256,7 +258,7 @@ func runAdvertiser(t *testing.T, sc advScenario, hook func(w *simWorld, a *Adver
 			}
 			for i := range sc.Lat {
 				r := &sc.Lat[i]
-				if r.Err == "" || (r.Dst != "any" && r.Dst != kind) {
+				if r.Err == "" || (r.Dst != "any" && r.Dst != kind) || (r.FirstConn && conn != 0) {
 					continue
 				}
 				key := [2]interface{}{conn, i}
@@ -264,7 +266,7 @@ func runAdvertiser(t *testing.T, sc advScenario, hook func(w *simWorld, a *Adver
 				c := errCounts[key]
 				errCounts[key] = c + 1
 				w.mu.Unlock()
-				if r.N < 0 || r.N == c {
+				if r.N < 0 || r.N == c || (r.From && c >= r.N) {
 					return vkErrOf(r.Err)
 				}
 			}
